@@ -1063,8 +1063,10 @@ class PDFType1Font(PDFSimpleFont):
         if "Encoding" not in spec and "FontFile" in descriptor:
             # try to recover the missing encoding info from the font file.
             self.fontfile = stream_value(descriptor.get("FontFile"))
-            length1 = int_value(self.fontfile["Length1"])
-            data = self.fontfile.get_data()[:length1]
+            data = self.fontfile.get_data()
+            # /Length1 is the length of the clear-text portion of the program
+            length1 = int_value(self.fontfile.get("Length1", len(data)))
+            data = data[: max(0, length1)]
             parser = Type1FontHeaderParser(BytesIO(data))
             self.cid2unicode = parser.get_encoding()
 
